@@ -65,9 +65,18 @@ func genMarshal(t *rapid.T) MarshalCase {
 		default:
 			c.Keys = append(c.Keys, []byte(rapid.SampledFrom(badKeyPool).Draw(t, "bkey")))
 		}
+		if (c.Family == 3 || c.Family == 4) && rapid.IntRange(0, 1).Draw(t, "neighbours") == 0 {
+			// what stands before and after an ill-formed byte must not make the encoder forget it
+			k := c.Keys[len(c.Keys)-1]
+			k = append([]byte(rapid.SampledFrom(neighbours).Draw(t, "before")), k...)
+			k = append(k, rapid.SampledFrom(neighbours).Draw(t, "after")...)
+			c.Keys[len(c.Keys)-1] = k
+		}
 	}
 	return c
 }
+
+var neighbours = []string{"", "", "\u2028", "\u2029", "<", "\"", "\\", "é", "😀", "\x00", "x", "\ufffd", "\u2028\u2029"}
 
 type withFallback struct {
 	A int
